@@ -393,7 +393,7 @@ impl Check for C02 {
         "C02"
     }
     fn work(&self, tier: Tier) -> Vec<WorkItem> {
-        vec![WorkItem { mode: "directed", count: 2 }, WorkItem { mode: "corpus", count: super::c11::corpus_files().len() as u64 }, WorkItem { mode: "cli", count: tier.pick(64, 4_000) }, WorkItem { mode: "gen", count: std::env::var("VERIF_N").ok().and_then(|s| s.parse().ok()).unwrap_or(tier.pick(240, 24_000)) }]
+        vec![WorkItem { mode: "directed", count: 2 }, WorkItem { mode: "corpus", count: super::c11::corpus_files().len() as u64 }, WorkItem { mode: "cli", count: tier.pick(64, 4_000) }, WorkItem { mode: "gen", count: std::env::var("VERIF_N").ok().and_then(|s| s.parse().ok()).unwrap_or(tier.pick(320, 30_000)) }]
     }
     fn evaluations_counter(&self) -> &'static str {
         "bmc_runs"
@@ -470,7 +470,8 @@ impl Check for C02 {
         // states without a next function (btor2 reading: unconstrained from step 1 on; see R4) in a quarter of the systems
         cfg.nextless_states = rng.chance(1, 3);
         cfg.nextless_one_in = 2;
-        let gs = gen_system(&mut rng, &mut ctx, &cfg, "");
+        // every system costs 20 solver sessions: prefer feature-rich ones (two thirds of the cases)
+        let gs = if rng.chance(2, 3) { crate::wl::sys::gen_rich_system(&mut rng, &mut ctx, &cfg, 4) } else { gen_system(&mut rng, &mut ctx, &cfg, "") };
         let sys = gs.sys;
         if sys.states.iter().any(|s| s.next.is_none()) {
             sh.count("systems_with_a_state_without_next", 1);
@@ -521,10 +522,10 @@ impl Check for C02 {
                 }
             }
         }
-        // one bound through all 16 configurations: verdicts must coincide (and equal the oracle, checked above)
+        // one bound through the four profiles (alternating modes): verdicts must coincide (and equal the oracle, checked above)
         let k = *rng.pick(&ks);
-        for persona in PERSONAS {
-            for individually in [false, true] {
+        for (pi, persona) in PERSONAS.into_iter().enumerate() {
+            for individually in [(pi + sh.cur.n as usize) % 2 == 1] {
                 let Some(v) = self.one_config(sh, &mut ctx, &sys, &label, persona, individually, false, k, &reach, rng.next() % 1000) else { return };
                 match &first {
                     None => first = Some((format!("{persona}/{individually}"), v, k)),
